@@ -111,7 +111,8 @@ func (tds *Conn) NewChannel() (*Channel, error) {
 		return nil, fmt.Errorf("error receiving ack for channel setup: %w", err)
 	}
 
-	header, ok := pkg.(*HeaderOnlyPackage)
+	// WritePacket passes header-only packets on as HeaderOnlyPackage values.
+	header, ok := pkg.(HeaderOnlyPackage)
 	if !ok {
 		return nil, fmt.Errorf("did not received expected header-only packet: %v", pkg)
 	}
